@@ -1150,11 +1150,13 @@ class TrackFileReader:
                 msg = f"Could not load '{track_spec_file}'. The complete track has been written to '{tmp.name}' for diagnosis."
                 raise TrackSyntaxError(msg, e)
 
+        if not isinstance(track_spec, dict):
+            raise TrackSyntaxError(f"Track '{track_name}' is invalid: the track specification must be a JSON object.")
         # check the track version before even attempting to validate the JSON format to avoid bogus errors.
         raw_version = track_spec.get("version", TrackFileReader.MAXIMUM_SUPPORTED_TRACK_VERSION)
         try:
             track_version = int(raw_version)
-        except ValueError:
+        except (ValueError, TypeError):
             raise exceptions.InvalidSyntax("version identifier for track %s must be numeric but was [%s]" % (track_name, str(raw_version)))
 
         if TrackFileReader.MINIMUM_SUPPORTED_TRACK_VERSION > track_version:
